@@ -393,6 +393,9 @@ pub const VALUE_CONTEXTS: &[(&str, &[&str], &[&str])] = &[
     ("calc-like-vendor-prefix", &[".", "a", "{", "k", ":", "-webkit-calc("], &[")", "}"]),
     ("function-arg", &[".", "a", "{", "k", ":", "f("], &[")", "}"]),
     ("media-feature", &["@media", " ", "(", "min-width", ":"], &[")", "{", "}"]),
+    // (a calculation inside the parentheses of an at-rule prelude)
+    ("calc-in-media-feature", &["@media", " ", "(", "min-width", ":", "calc("], &[")", ")", "{", "}"]),
+    ("calc-in-supports-media-feature", &["@supports", " ", "(", "k", ":", "calc(", "("], &[")", ")", ")", "{", "}"]),
     ("keyframes", &["@keyframes", " ", "n", "{", "50%", "{", "k", ":"], &["}", "}"]),
     ("font-face", &["@font-face", "{", "unicode-range", ":"], &["}"]),
 ];
@@ -404,7 +407,7 @@ fn push_kind(sh: &mut Sheet, k: &Kind, ctx: &str, in_calc: bool) {
         return;
     }
     for p in k.pieces {
-        if k.name == "class-like" && *p == "c" && ctx == "media-feature" {
+        if k.name == "class-like" && *p == "c" && ctx.ends_with("media-feature") {
             // at-rule prelude blocks are selector context for class names (C09)
             sh.push(p, Role::Class, ctx);
         } else if p.ends_with("rpx") || p.ends_with("RPX") {
@@ -419,9 +422,11 @@ fn push_kind(sh: &mut Sheet, k: &Kind, ctx: &str, in_calc: bool) {
 pub fn value_sheet(c: usize, ks: &[usize], ws: &[bool]) -> Sheet {
     let (name, pre, suf) = VALUE_CONTEXTS[c];
     let mut sh = Sheet::new();
-    for p in pre.iter() {
+    for (pi, p) in pre.iter().enumerate() {
         if *p == " " {
-            sh.ws(name.starts_with("calc"), "prefix");
+            // (only the blanks next to + and - carry meaning; the blank after an at-keyword does not)
+            let pm = |j: usize| pre.get(j).map_or(false, |x| *x == "+" || *x == "-");
+            sh.ws(name.starts_with("calc") && (pm(pi + 1) || (pi > 0 && pm(pi - 1))), "prefix");
         } else if *p == "a" && pre[0] == "." {
             sh.push("a", Role::Class, "prefix");
         } else {
@@ -438,7 +443,10 @@ pub fn value_sheet(c: usize, ks: &[usize], ws: &[bool]) -> Sheet {
             // the blanks around + and - carry meaning in calc() and in every value that may be substituted into one
             // (custom properties, var() fallbacks, arguments of functions): they are kept in every declaration value
             // (a media feature is written by the selector-aware routine, where nothing is promised next to a curly block)
-            let must = (in_calc || name != "media-feature") && (is_pm(&KINDS[ks[i - 1]]) || is_pm(&KINDS[*k]));
+            let curly = |x: usize| KINDS[x].name == "curly-block";
+            let must = (in_calc || name != "media-feature")
+                && !(name.ends_with("media-feature") && (curly(ks[i - 1]) || curly(*k)))
+                && (is_pm(&KINDS[ks[i - 1]]) || is_pm(&KINDS[*k]));
             sh.ws(must, name);
         }
         push_kind(&mut sh, &KINDS[*k], name, in_calc);
@@ -446,7 +454,7 @@ pub fn value_sheet(c: usize, ks: &[usize], ws: &[bool]) -> Sheet {
     for p in suf.iter() {
         sh.plain(p, "suffix");
     }
-    if name == "media-feature" {
+    if name.ends_with("media-feature") {
         // at-rule prelude blocks are selector context: an identifier directly after a dot is a class name
         for i in 1..sh.pieces.len() {
             if sh.pieces[i - 1].text == "." && sh.pieces[i - 1].ctx == name && sh.pieces[i].role == Role::Plain && sh.pieces[i].ctx == name {
